@@ -46,7 +46,7 @@ CLAIMS = {
   "design": "6/C09"},
  "C10": {
   "text": "NARROWED: with the blocking half of WaitGroup::wait replaced by 'run the parked processor to quiescence, then the counter must be zero', wait() enqueues its marker behind earlier work, the marker is released on the processor path and on the cleaner path (clear() racing after the marker was queued), admitted inserts are retrievable and charged and removes applied when it returns; an insert the processor had already taken off the buffer (buffer empty) when wait() is called is applied when wait() returns; on a full buffer wait() and remove() return errors instead of blocking; on a closed cache Ok without queuing.",
-  "note": "NOT decided: 'never blocks forever' under races with close() (O3: by reading it can hang), other threads' operations, real wake-ups.",
+  "note": "The general barrier harness (an insert and a remove before wait(), c10_wait_barrier, ~14 min) is in the thorough tier; in-flight item, cleaner path and full buffer are quick. NOT decided: 'never blocks forever' under races with close() (O3: by reading it can hang), other threads' operations, real wake-ups.",
   "design": "6/C10, 8"},
  "C11": {
   "text": "clear() + the processor's handling of the clear signal from an arbitrary quiescent state with <= 2 residents and optionally a buffered New item: nothing inserted before is retrievable, len and charged cost are zero, estimator zeroed, metrics counters zero, buffered insert discarded through on_evict; a key that had a TTL before the clear and is re-used with another TTL or none is only reclaimed by its NEW deadline.",
@@ -78,7 +78,7 @@ CLAIMS = {
   "design": "6/C17"},
  "C18": {
   "text": "TransparentKeyBuilder for bool and all ten integer types at full width: index == key as u64 == to_u64, conflict 0, deterministic, injective. Collision isolation at store level (conflict mismatch => NotExist/Conflict/None and the resident entry untouched: c02_store_*) and at cache level with a key builder that forces two keys onto one index: lookups, insert and remove of the second key never read, overwrite or remove the first key's value; the colliding value is refused through on_reject.",
-  "note": "DefaultKeyBuilder String/&str equality (SeaHash + xxh64 over symbolic bytes) exceeds 12 GB even for 4 bytes: outside (String::hash delegates to str::hash by construction).",
+  "note": "The cache-level insert of the colliding key (c18_cache_isolation_insert, ~13 min) is in the thorough tier; store-level isolation of inserts / updates is quick (c02_store_*). DefaultKeyBuilder String/&str equality (SeaHash + xxh64 over symbolic bytes) exceeds 12 GB even for 4 bytes: outside (String::hash delegates to str::hash by construction).",
   "design": "6/C18"},
  "C19": {
   "text": "PARTLY decided. Processor side of the async flavour: cache::async::CacheProcessor::handle_insert_event (Update / Delete arms and the New arm's wiring for every outcome of the policy and the store) satisfies, from the same kind of arbitrary state, the same assertions as the sync flavour (charges, callbacks, resident <=> charged). Client side: AsyncCache::try_update, the whole insert path (closed flag, try_update, select!{send, default} with room in the buffer), try_remove (a Delete is queued whether or not the key was resident; value to on_exit once), get / get_mut (hit iff resident and TTL not elapsed, one Hit or Miss) and clear (one clear signal, store and policy emptied), each polled to completion in one poll over the real async_channel Send future with only Sender::try_send replaced by a FIFO contract, satisfy the assertions of the corresponding sync harnesses.",
